@@ -715,7 +715,12 @@ lyxml_open_element(struct lyxml_ctx *xmlctx, const char *prefix, size_t prefix_l
     prev_input = xmlctx->in->current;
     prev_line = xmlctx->in->line;
     is_ns = 1;
-    while ((xmlctx->in->current[0] != '\0') && !(ret = ly_getutf8(&xmlctx->in->current, &c, &parsed))) {
+    while (xmlctx->in->current[0] != '\0') {
+        if (ly_getutf8(&xmlctx->in->current, &c, &parsed)) {
+            LOGVAL(xmlctx->ctx, LY_VCODE_INCHAR, xmlctx->in->current[0]);
+            ret = LY_EVALID;
+            goto cleanup;
+        }
         if (!is_xmlqnamestartchar(c)) {
             break;
         }
